@@ -90,6 +90,11 @@ CHECKS = {
    technique="fault injection driven by property-based generation: a git stand-in (git_path) fails / returns garbage / kills the wrapper at the k-th internal git call (sampled in quick, every k in thorough) and generated corruptions of .git/ai; differential against a plain-git twin",
    text="For generated pre-states and 13 hooked target commands the number N of internal git calls is learnt, then the command is re-run from byte copies of the pre-state once per (k, mode) fault - quick: 8-12 sampled k, thorough: all k x {fail, garbage, kill} - and once per generated corruption of git-ai's private files. Each run must be transparent w.r.t. a plain-git twin (exit, stdout, state digest) or a clean refusal (git never started, non-zero, diagnostic, state untouched); a fixed un-faulted follow-up must behave like the twin's, all notes must still parse and blame must not report as AI anything the un-faulted run does not.",
    note="Crash points are git-subprocess boundaries plus file-level corruption of .git/ai, not arbitrary instructions. The stand-in distinguishes the proxied call by GITAI_SKIP_MANAGED_HOOKS=1. Remote operations (push/fetch/pull) are not among the targets. A later commit that refuses cleanly while the corruption persists is accepted (counted)."),
+ "C08": dict(
+   level="exploration", design="DESIGN.md §2 C08",
+   technique="enumeration of configuration x note-writing path x agent kind (220 scenarios) plus property-based generation of transcripts with planted canaries and secrets; byte search of every blob of every historical notes commit",
+   text="Every combination of 10 prompt-storage configurations, 11 note-writing paths and 2 agent kinds (inline transcript / transcript re-fetched from a JSONL file) is executed through the real wrapper with a transcript whose every message carries a unique canary and, for text messages, planted high-entropy tokens; generated combinations with generated transcripts are added. All blobs of all commits of refs/notes/ai are searched: without the notes opt-in no canary may occur; with it the middle of every planted secret must be masked (and canaries do occur - measured).",
+   note="'High-entropy' is delegated to the library's own classifier (secrets::is_random), linked in-process: the claim tested is that every path applies the policy to every message, not the detector's statistics. pull --rebase and `git-ai squash-authorship` paths are not included."),
 }
 
 NOT_YET = "check not built yet (work in progress; see DESIGN.md section 2 for the plan)"
